@@ -142,17 +142,20 @@ rt_token_pub!(rt_token_pub_k2_mix, 2, 0b01);
 // ---- C07: ConnectToken::read is total ---------------------------------------------------------------------
 // instance: announced address count K and the host-type bytes (so read offsets are concrete); everything else
 // in the byte source is symbolic; the source may be truncated anywhere (length symbolic)
+/// public token source buffer: fixed part + address list (up to 33 one-byte NONE entries or 2 full ones) + keys + slack
+const TOKBUF: usize = 8 + 13 + 8 + 8 + 8 + 24 + NETCODE_CONNECT_TOKEN_PRIVATE_BYTES + 4 + 4 + 64 + 64 + 144;
+
 macro_rules! tok_read_total {
     ($name:ident, $count:expr, $types:expr) => {
         #[kani::proof]
         #[kani::unwind(36)]
         fn $name() {
-            let mut buf: [u8; 1300] = kani::any();
+            let mut buf: [u8; TOKBUF] = kani::any();
             let n: usize = kani::any();
-            kani::assume(n <= 1300);
+            kani::assume(n <= TOKBUF);
             // fixed header layout: id 8, version 13, protocol 8, create 8, expire 8, xnonce 24, private 1024, timeout 4
             buf[8..21].copy_from_slice(NETCODE_VERSION_INFO);
-            let base = 8 + 13 + 8 + 8 + 8 + 24 + 1024 + 4;
+            let base = 8 + 13 + 8 + 8 + 8 + 24 + NETCODE_CONNECT_TOKEN_PRIVATE_BYTES + 4;
             let count: u32 = $count;
             buf[base..base + 4].copy_from_slice(&count.to_le_bytes());
             // host type bytes at their (concrete) offsets
@@ -208,12 +211,27 @@ fn tok_priv_decode_total() {
 #[kani::proof]
 #[kani::unwind(36)]
 fn tok_witness() {
-    let mut buf: [u8; 1300] = kani::any();
+    let mut buf: [u8; TOKBUF] = kani::any();
     buf[8..21].copy_from_slice(NETCODE_VERSION_INFO);
-    let base = 8 + 13 + 8 + 8 + 8 + 24 + 1024 + 4;
+    let base = 8 + 13 + 8 + 8 + 8 + 24 + NETCODE_CONNECT_TOKEN_PRIVATE_BYTES + 4;
     buf[base..base + 4].copy_from_slice(&0u32.to_le_bytes());
     let mut src = Cursor::new(&buf[..]);
     let r = ConnectToken::read(&mut src);
+    if r.is_ok() {
+        assert!(false, "witness");
+    }
+    std::mem::forget(r);
+}
+
+/// vacuity witness for the private-token lemmas (must FAIL)
+#[kani::proof]
+#[kani::unwind(36)]
+fn tokp_witness() {
+    reset_ghost(1, 0);
+    let mut data: [u8; NETCODE_CONNECT_TOKEN_PRIVATE_BYTES] = kani::any();
+    data[12..16].copy_from_slice(&1u32.to_le_bytes());
+    data[16] = 1;
+    let r = PrivateConnectToken::decode(&data, kani::any(), kani::any(), &kani::any(), &kani::any());
     if r.is_ok() {
         assert!(false, "witness");
     }
